@@ -12,6 +12,7 @@ unreachable from its initial state.
 `PyShape` says that the lists standing for Python sets/dicts have no repeated elements/keys.
 -/
 import AutomataVerif.Proofs.Subset
+import AutomataVerif.Proofs.Elim
 
 namespace AV.Props.C07
 open AV AV.C07
@@ -62,5 +63,57 @@ theorem C07_from_dfa_lang (d : AV.DFA σ α) : ∀ w, (NFA.ofDFA d).accepts w = 
 theorem C07_from_dfa_run (d : AV.DFA σ α) (w : List α) (p : σ) :
     p ∈ (NFA.ofDFA d).runFrom ((NFA.ofDFA d).closure d.init) w ↔ d.run (some d.init) w = some p := by
   rw [ofDFA_closure]; exact ofDFA_run d w (some d.init) p
+
+/-! ## C. `NFA.eliminate_lambda` -/
+
+/-- **ε-elimination: same language.**  For every valid NFA (ε-cycles, states without rows,
+empty target sets, unreachable parts, rows keyed by non-states included) the result of
+`eliminate_lambda` accepts exactly the words the source accepts. -/
+theorem C07_elim_lang (n : AV.NFA σ α) (hv : n.validate = .ok ()) (ps : n.PyShape) :
+    ∀ w, n.eliminateLambda.accepts w = n.accepts w :=
+  fun w => elim_accepts ((NFA.validate_eq_ok n).mp hv) ps w
+
+/-- **ε-elimination: the result is a valid NFA** (the constructor call at the end of
+`eliminate_lambda` cannot raise). -/
+theorem C07_elim_valid (n : AV.NFA σ α) (hv : n.validate = .ok ()) (ps : n.PyShape) :
+    n.eliminateLambda.validate = .ok () := by
+  rw [NFA.validate_eq_ok]
+  exact elim_wf ((NFA.validate_eq_ok n).mp hv) ps
+
+/-- **No empty-string transition is left**: no row of the result has a `""` key — hence no
+state has a λ-move and every λ-closure in the result is the state itself. -/
+theorem C07_elim_no_epsilon (n : AV.NFA σ α) (hv : n.validate = .ok ()) (ps : n.PyShape) :
+    (∀ kv ∈ n.eliminateLambda.trans, ∀ e ∈ kv.2, e.1 ≠ none) ∧
+    (∀ q, n.eliminateLambda.targets q none = []) ∧
+    (∀ q, n.eliminateLambda.closure q = [q]) := by
+  have wf := (NFA.validate_eq_ok n).mp hv
+  exact ⟨elim_noEps wf ps, elim_targets_none wf ps, elim_closure wf ps⟩
+
+/-- **No unreachable state is left**: every state of the result is reached from its initial
+state by following transitions of the result. -/
+theorem C07_elim_all_reachable (n : AV.NFA σ α) (hv : n.validate = .ok ()) (ps : n.PyShape) :
+    ∀ q ∈ n.eliminateLambda.states,
+      Reach (fun q => (n.eliminateLambda.row q).flatMap fun e => e.2) n.eliminateLambda.init q :=
+  elim_reachable ((NFA.validate_eq_ok n).mp hv) ps
+
+/-- The result again has the shape of a value built from Python sets and dicts (so the
+conversions compose: e.g. `DFA.from_nfa(n.eliminate_lambda())`). -/
+theorem C07_elim_pyShape (n : AV.NFA σ α) (hv : n.validate = .ok ()) (ps : n.PyShape) :
+    n.eliminateLambda.PyShape :=
+  elim_pyShape ((NFA.validate_eq_ok n).mp hv) ps
+
+/-- What the transformation does, state by state: the new final states are the reachable
+states whose λ-closure meets the old final states (whatever the order in which the loop
+visits the states), and the new targets of a reachable `q` on `a` are its old targets plus
+everything reachable by `a` (λ-closed) from the other members of its λ-closure. -/
+theorem C07_elim_shape (n : AV.NFA σ α) (hv : n.validate = .ok ()) (ps : n.PyShape) :
+    (∀ q, q ∈ n.eliminateLambda.finals ↔
+      q ∈ n.eliminateLambda.states ∧ q ∈ n.states ∧ ∃ p ∈ n.closure q, p ∈ n.finals) ∧
+    (∀ q ∈ n.eliminateLambda.states, ∀ a t,
+      t ∈ n.eliminateLambda.targets q (some a) ↔
+        t ∈ n.targets q (some a) ∨
+        t ∈ n.nextStates ((n.closure q).filter fun p => decide (p ≠ q)) a) := by
+  have wf := (NFA.validate_eq_ok n).mp hv
+  exact ⟨fun q => mem_elim_finals wf q, fun q hq a t => elim_targets_some wf ps hq a t⟩
 
 end AV.Props.C07
